@@ -37,7 +37,10 @@ def scenarios(quick):
               (T.hidden(maxseq=1), 'Spec', 6 if quick else 100, 200),
               (T.tee_rejoin_multi(maxseq=3), 'SpecPrompt', 6 if quick else 80, 250),
               (T.tee_rejoin_relay(maxseq=3), 'SpecPrompt', 6 if quick else 80, 300),
-              (T.explicit_multi(maxseq=5), 'SpecPrompt', 6 if quick else 80, 300)],
+              (T.explicit_multi(maxseq=5), 'SpecPrompt', 6 if quick else 80, 300),
+              # the rejoin point is an application that calls MQ.recv() / MQ.send() with timeout = None (OFP!Blocking)
+              (T.blocking(T.tee_rejoin2(maxseq=2), ['K']), 'SpecPrompt', 6 if quick else 80, 200),
+              (T.blocking(T.tee_rejoin_relay(maxseq=3)), 'SpecPrompt', 4 if quick else 60, 300)],
         # random schedules on the real code: (topology, runs, steps, p_timeout, p_drop)
         rand=[(T.tee_rejoin2(maxseq=3), 10 if quick else 200, 700, 0.03, 0.0),
               (T.tee_rejoin2(maxseq=3, skipA=(0,), skip=(2,), slowB=True, explicit_b=True), 12 if quick else 200, 700, 0.03, 0.0),
